@@ -132,10 +132,37 @@ func (s *state) dump(serv *wallet.Service) string {
 func (s *state) views() string {
 	mem := s.dump(s.serv)
 	disk := "ERR"
+	bytesEq := "ok"
 	if s2, err := wallet.NewService(cfg(s.dir)); err == nil {
 		disk = s.dump(s2)
+		// the serialised form (incl. the raw encrypted `secrets` meta) of every non-temporary wallet in
+		// memory must be byte-identical to what a freshly started service holds for that file
+		ms, err := s.serv.GetWallets()
+		must(err)
+		ds, err := s2.GetWallets()
+		must(err)
+		var ids []string
+		for id := range ms {
+			ids = append(ids, id)
+		}
+		sort.Strings(ids)
+		for _, id := range ids {
+			m := ms[id]
+			d, ok := ds[id]
+			if m.IsTemp() || !ok {
+				continue
+			}
+			mb, err := m.Serialize()
+			must(err)
+			db, err := d.Serialize()
+			must(err)
+			if string(mb) != string(db) {
+				bytesEq = "DIFF:" + id
+				break
+			}
+		}
 	}
-	return "mem=" + mem + " disk=" + disk
+	return "mem=" + mem + " disk=" + disk + " bytes=" + bytesEq
 }
 
 func kind(err error) string {
@@ -259,6 +286,21 @@ func c19Exec(op string) string {
 		return res(err)
 	case "unload":
 		return res(s.serv.UnloadWallet(f[1]))
+	case "seed":
+		_, _, err := s.serv.GetWalletSeed(f[1], pwOf(f[2]))
+		return res(err)
+	case "view":
+		return res(s.serv.ViewSecrets(f[1], pwOf(f[2]), func(w wallet.Wallet) error {
+			_ = w.Seed()
+			_, err := w.GetEntries()
+			return err
+		}))
+	case "get":
+		_, err := s.serv.GetWallet(f[1])
+		if err == nil {
+			_, err = s.serv.GetWallets()
+		}
+		return res(err)
 	case "update":
 		return res(s.serv.Update(f[1], func(w wallet.Wallet) error {
 			if f[2] == "FAIL" {
@@ -322,7 +364,7 @@ func c19Gen(r *Rng, tier string, emit func(string)) {
 		}
 		ended := false
 		for i := 0; i < nops && !ended; i++ {
-			switch r.Intn(12) {
+			switch r.Intn(14) {
 			case 0, 1, 2:
 				id := pick()
 				typ := []string{"deterministic", "deterministic", "bip44", "collection"}[r.Intn(4)]
@@ -430,6 +472,16 @@ func c19Gen(r *Rng, tier string, emit func(string)) {
 						unloadedSeeds[w.typ+"-"+w.seed] = true
 					}
 					delete(mem, id)
+				}
+			case 12, 13:
+				id := pickMem()
+				switch r.Intn(5) {
+				case 0:
+					emit("get " + id)
+				case 1, 2:
+					emit(fmt.Sprintf("seed %s %d", id, pwFor(id)))
+				default:
+					emit(fmt.Sprintf("view %s %d", id, pwFor(id)))
 				}
 			case 11:
 				id := pickMem()
